@@ -354,7 +354,11 @@ def _run_assign(ck, ob, st, s, lhs, rhs):
     dl = st.role("data_len")
     if call == "PyBytes_FromStringAndSize":
         args = C.call_args(rhs)
-        ok = len(args) == 2 and (C.is_null_pointer(args[0]) or C.ref(args[0]) == st.role("data")) and C.ref(_unwrap_int(args[1])) == dl
+        ok = len(args) == 2 and C.is_null_pointer(args[0]) and C.ref(_unwrap_int(args[1])) == dl
+        if len(args) == 2 and not C.is_null_pointer(args[0]):
+            # a bytes object created *with contents* may be a shared object (CPython returns the cached empty / one-byte
+            # objects); the routine writes through its buffer afterwards
+            ob("C18.alloc", s, False, "the result buffer that is written through comes from PyBytes_FromStringAndSize(NULL, n): an object built from existing contents can be a shared (cached) bytes object and must not be modified", "result created with contents and then written through")
         ob("C18.alloc", s, ok and st.sym == "exact", "the result is allocated uninitialised with exactly data_len bytes, before data_len is changed", "result = PyBytes_FromStringAndSize(NULL, <%s>)" % (st.roles.get(C.ref(_unwrap_int(args[1])) if len(args) == 2 else None, "?")))
         st.roles[name] = "result"
         st.allocated = True
@@ -881,6 +885,7 @@ MUTANTS = [
     ("C: short payloads (< 4 bytes) take a shortcut that skips the mask length test", _c_mutant("    if (mask_len != 4)", "    if (!data_len)\n        return PyBytes_FromStringAndSize(\"\", 0);\n    if (mask_len != 4)"), "C18.mask-len"),
     ("seeded C18-adv4: a 16-bit step after the 32-bit loop, byte tail still indexes mask[i] from 0", _c_mutant("    for (i = 0; i < data_len; i++)", "    if (data_len >= 2)\n    {\n        ((uint16_t *)buf)[0] = ((uint16_t *)data)[0] ^ (uint16_t)uint32_mask;\n        data += 2;\n        buf += 2;\n        data_len -= 2;\n    }\n\n    for (i = 0; i < data_len; i++)"), "C18.tail"),
     ("seeded C18-adv5: word loops only for aligned data, byte tail (mask[i]) then handles payloads of any length", _c_mutant(_align_guards, None), "C18.tail"),
+    ("seeded C18-adv6: result created as a copy of the payload (non-NULL source) and XOR-ed in place", _c_mutant("PyBytes_FromStringAndSize(NULL, data_len)", "PyBytes_FromStringAndSize(data, data_len)"), "C18.alloc"),
     ("C: 8-byte loop advances data by 4", _c_mutant("data += 8;", "data += 4;"), "C18.stride"),
     ("C: 8-byte loop runs while data_len > 0", _c_mutant("while (data_len >= 8)", "while (data_len > 0)"), "C18.guard"),
     ("C: 4-byte loop runs while data_len >= 2", _c_mutant("while (data_len >= 4)", "while (data_len >= 2)"), "C18.guard"),
